@@ -537,6 +537,8 @@ func (e *Engine) jInspect(name string, args []Value) (Value, bool) {
 		return TupleVal{JBytes{JNull{}}, tFalse}, true
 	case "vpJEqual":
 		return jEq(e.bytesToJ(args[0]), e.bytesToJ(args[1])), true
+	case "vpJEqualLoose":
+		return jEq(jLoose(e.bytesToJ(args[0])), jLoose(e.bytesToJ(args[1]))), true
 	}
 	return nil, false
 }
@@ -560,4 +562,29 @@ func (e *Engine) sortedObj(o JObj) JObj {
 		}
 	}
 	return n
+}
+
+// jLoose identifies null, {} and [] (nil versus empty containers) at every depth.
+func jLoose(v JVal) JVal {
+	switch t := v.(type) {
+	case JArr:
+		if len(t.elems) == 0 {
+			return JNull{}
+		}
+		out := JArr{}
+		for _, x := range t.elems {
+			out.elems = append(out.elems, jLoose(x))
+		}
+		return out
+	case JObj:
+		if len(t.keys) == 0 {
+			return JNull{}
+		}
+		out := JObj{ordered: t.ordered, keys: t.keys}
+		for _, x := range t.vals {
+			out.vals = append(out.vals, jLoose(x))
+		}
+		return out
+	}
+	return v
 }
